@@ -304,12 +304,13 @@ def _cl(a):
 # case generation
 # ------------------------------------------------------------------------------------------------
 def _shapes(ctx):
-    B = ctx.scale(5, 8)
+    B = ctx.scale(6, 10)
     if ctx.widen:
         B += 2
     small = [(m, n) for m in range(1, B + 1) for n in range(1, B + 1)]
     big = [(7, 10), (9, 8), (12, 5), (11, 13), (6, 9), (10, 10)] if not ctx.thorough else \
-        [(7, 10), (9, 8), (12, 5), (11, 13), (6, 9), (10, 10), (13, 12), (16, 9), (9, 16), (15, 15), (14, 11)]
+        [(7, 10), (9, 8), (12, 5), (11, 13), (6, 9), (10, 10), (13, 12), (16, 9), (9, 16), (15, 15), (14, 11),
+         (17, 24), (24, 17), (20, 20), (32, 5), (3, 31), (1, 29), (30, 1)]
     return small, big
 
 
@@ -456,7 +457,7 @@ def correspondence(ctx):
         _check(ctx, 'tf_psf', base, desc, nt, tag)
 
     # ---------------- transfer-function lists given as arrays
-    reps = ctx.scale(1, 3)
+    reps = ctx.scale(1, 4)
     for shape in small + big:
         m, n = shape
         nt = m * n > 1
